@@ -74,6 +74,68 @@ static int ref_tl(const octet* d, size_t n, u32* tag, size_t* len, size_t* used)
 	return 1;
 }
 
+/* the other direction: the input octets taken as a VALUE; whatever the typed encoders produce decodes back to the encoded value */
+static void der_encode_first(const octet* d, size_t n)
+{
+	static const u32 tags[4] = {0x02, 0x80, 0x5F29, 0x1F21};
+	u32 tag; size_t m, r;
+	if (n < 2) return;
+	tag = tags[d[0] & 3];
+	/* UINT: [n - 1] octets, little-endian, high-order zero octets allowed */
+	{
+		const octet* v = d + 1; size_t len = n - 1, sig = len, olen = 0; octet* e; octet* o;
+		while (sig > 1 && v[sig - 1] == 0) --sig;
+		m = derTUINTEnc(0, tag, v, len);
+		CHECK(m != SIZE_MAX, "derTUINTEnc refuses a %zu-octet number", len);
+		e = (octet*)malloc(m);
+		CHECK(derTUINTEnc(e, tag, v, len) == m, "derTUINTEnc probe/real mismatch");
+		r = derTUINTDec(0, &olen, e, m, tag);
+		CHECK(r == m, "derTUINTDec rejects / does not consume the code produced by derTUINTEnc (%zu of %zu)", r, m);
+		o = (octet*)malloc(olen ? olen : 1);
+		CHECK(derTUINTDec(o, &olen, e, m, tag) == m && olen == sig && memcmp(o, v, sig) == 0, "derTUINTDec(derTUINTEnc(v)) != v");
+		free(o); free(e);
+	}
+	/* BIT: the first octet also selects the number of unused bits */
+	{
+		const octet* v = d + 1; size_t bits = 8 * (n - 1) - ((d[0] >> 2) & 7), olen = 0, by = (bits + 7) / 8; octet* e; octet* o;
+		m = derTBITEnc(0, tag, v, bits);
+		CHECK(m != SIZE_MAX, "derTBITEnc refuses %zu bits", bits);
+		e = (octet*)malloc(m);
+		CHECK(derTBITEnc(e, tag, v, bits) == m, "derTBITEnc probe/real mismatch");
+		r = derTBITDec(0, &olen, e, m, tag);
+		CHECK(r == m && olen == bits, "derTBITDec rejects the code produced by derTBITEnc (%zu of %zu, %zu bits of %zu)", r, m, olen, bits);
+		o = (octet*)malloc(by ? by : 1);
+		CHECK(derTBITDec(o, &olen, e, m, tag) == m, "derTBITDec probe/real mismatch");
+		if (by)
+		{
+			CHECK(memcmp(o, v, by - 1) == 0, "derTBITDec(derTBITEnc(v)) != v");
+			CHECK(bits % 8 ? ((o[by - 1] ^ v[by - 1]) & (octet)(0xFF << (8 - bits % 8))) == 0 : o[by - 1] == v[by - 1], "derTBITDec(derTBITEnc(v)) differs in the last octet");
+		}
+		free(o); free(e);
+	}
+	/* OCT and SIZE */
+	{
+		const octet* v = d + 1; size_t len = n - 1, olen = 0, sv = 0, k; octet* e; octet* o;
+		m = derTOCTEnc(0, tag, v, len);
+		CHECK(m != SIZE_MAX, "derTOCTEnc refuses %zu octets", len);
+		e = (octet*)malloc(m);
+		CHECK(derTOCTEnc(e, tag, v, len) == m, "derTOCTEnc probe/real mismatch");
+		o = (octet*)malloc(len);
+		CHECK(derTOCTDec(o, &olen, e, m, tag) == m && olen == len && memcmp(o, v, len) == 0, "derTOCTDec(derTOCTEnc(v)) != v");
+		free(o); free(e);
+		for (k = 0; k < len && k < sizeof(size_t); ++k) sv |= (size_t)v[k] << (8 * k);
+		if (sv != SIZE_MAX)
+		{
+			size_t back = 0;
+			m = derTSIZEEnc(0, tag, sv);
+			CHECK(m != SIZE_MAX, "derTSIZEEnc refuses %zu", sv);
+			e = (octet*)malloc(m);
+			CHECK(derTSIZEEnc(e, tag, sv) == m && derTSIZEDec(&back, e, m, tag) == m && back == sv, "derTSIZEDec(derTSIZEEnc(v)) != v");
+			free(e);
+		}
+	}
+}
+
 static void der_typed(const octet* d, size_t n, u32 tag)
 {
 	size_t r, r2, len;
@@ -165,6 +227,7 @@ int LLVMFuzzerTestOneInput(const uint8_t* data, size_t n)
 	u32 tag = 0; size_t len = 0, r, t;
 	const octet* val = 0;
 	init(); ++n_exec;
+	der_encode_first(d, n);
 	/* TL */
 	r = derTLDec(&tag, &len, d, n);
 	{
